@@ -58,7 +58,7 @@ impl BFlavor for purl::PackageType {
     }
 }
 
-pub const UNIVERSE: [&str; 18] = ["", "a", "B", "/", "a/b", "/a//b/", ".", "../x", "a@b", "a?b#c", "a&b=c", "%41", "100%", " ", "é", "\u{1}", "+", "A--b"];
+pub const UNIVERSE: [&str; 19] = ["", "a", "B", "/", "a/b", "/a//b/", ".", "../x", "a@b", "a?b#c", "a&b=c", "%41", "100%", " ", "é", "\u{1}", "+", "A--b", "a/.../b"];
 pub const QVALUES: [&str; 6] = ["", "a", "a&b=c", "%41", "é", " +"];
 pub const CVALUES: [&str; 5] = ["a:00", "B:ff,a:0A", "a:0", "zz", ""];
 
